@@ -14,7 +14,7 @@ C = {}
 
 def reg(names, **kw):
     for n in ([names] if isinstance(names, str) else names):
-        C[n] = kw
+        C[n] = dict(kw)
 
 
 def _aff(num, t):
@@ -507,7 +507,12 @@ def own_read_bits(w, st, args):
     # W*wp' - b' = W*wp - b + n   =>   wp' = wp + (n + b' - b)/W
     from fractions import Fraction
     st["mem"][G_WP] = ("lincomb", ((Fraction(1), wp_old), (Fraction(1, W), args[1]), (Fraction(1, W), hb), (Fraction(-1, W), b_old)), Fraction(0))
-    st["mem"][_field("buffer")] = ("havoc", "ownb%d" % _fresh[0], None, "own", "buffer'")
+    hbuf = ("havoc", "ownb%d" % _fresh[0], None, "own", "buffer'")
+    st["mem"][_field("buffer")] = hbuf
+    # cleanliness is part of the callee's guarantee (verified on read_bits itself: R2.clean)
+    is_be = "BigEndian" in (w.body.b.get("impl_self") or "")
+    facts_ = w.num.__dict__.setdefault("range_facts", {})
+    facts_[hbuf] = (const(2 * W) - w.num.aff(hb), const(2 * W)) if is_be else (const(0), w.num.aff(hb))
     # when the request fits the buffer no word is fetched: b' = b - n exactly (fast path of read_bits, verified in R3);
     # in general only the invariant is known
     n = w.num.aff(args[1])
@@ -525,3 +530,72 @@ def own_read_bits(w, st, args):
 
 C["traits::bits::BitWrite::write_bits"]["self_effect"] = own_write_bits
 C["traits::bits::BitRead::read_bits"]["self_effect"] = own_read_bits
+
+
+# ---------------------------------------------------------------------------
+# operator traits on generic words: give the result the same structured term a primitive operation would have, so that the
+# bit-range domain (sa/bitrange.py) can follow shifts, masks and casts through `W: Shl<usize> + BitOr + ...` code.
+def _dest_ty(w, t):
+    d = t["dest"]
+    return w.body.local_ty(d["l"]) if not d["proj"] else None
+
+
+def binop_fork(op):
+    def f(w, st, t, args):
+        if len(args) != 2:
+            return None
+        return [{"res": ("binop", op, args[0], args[1])}]
+    return f
+
+
+def assign_fork(op):
+    def f(w, st, t, args):
+        if len(args) != 2 or not (isinstance(args[0], tuple) and args[0][0] == "ref"):
+            return None
+        key = args[0][1]
+        if key[0] == "local":
+            if len(key) > 2 and key[2] == w.body.path:
+                old = st["env"].get(key[1], key)
+                return [{"env": {key[1]: ("binop", op, old, args[1])}, "res": ("unit",)}]
+            return None
+        old = st["mem"].get(key, key)
+        return [{"mem": {key: ("binop", op, old, args[1])}, "res": ("unit",)}]
+    return f
+
+
+for _nm, _op in (("Shl::shl", "Shl"), ("Shr::shr", "Shr"), ("BitOr::bitor", "BitOr"), ("BitAnd::bitand", "BitAnd"), ("BitXor::bitxor", "BitXor")):
+    C.setdefault("std::ops::" + _nm, {})["fork"] = binop_fork(_op)
+for _nm, _op in (("ShlAssign::shl_assign", "Shl"), ("ShrAssign::shr_assign", "Shr"), ("BitOrAssign::bitor_assign", "BitOr"),
+                 ("BitAndAssign::bitand_assign", "BitAnd"), ("BitXorAssign::bitxor_assign", "BitXor")):
+    C.setdefault("std::ops::" + _nm, {})["fork"] = assign_fork(_op)
+
+
+def not_fork(w, st, t, args):
+    return [{"res": ("unop", "Not", args[0])}]
+
+
+C.setdefault("std::ops::Not::not", {})["fork"] = not_fork
+
+
+def cast_fork(w, st, t, args):
+    ty = _dest_ty(w, t)
+    if ty is None or len(args) != 1:
+        return None
+    return [{"res": ("cast", args[0], ty)}]
+
+
+for _nm in ("common_traits::CastableInto::cast", "common_traits::UpcastableInto::upcast", "common_traits::DowncastableInto::downcast",
+            "common_traits::CastableFrom::cast_from", "common_traits::UpcastableFrom::upcast_from", "common_traits::DowncastableFrom::downcast_from"):
+    C.setdefault(_nm, {})["fork"] = cast_fork
+
+
+def wordop_fork(name):
+    def f(w, st, t, args):
+        return [{"res": ("wordop", name) + tuple(args)}]
+    return f
+
+
+for _nm in ("to_be", "to_le", "rotate_left", "rotate_right"):
+    C.setdefault("common_traits::Integer::" + _nm, {})["fork"] = wordop_fork(_nm)
+    for _p in ("u64", "u128", "u32", "u16", "u8", "usize"):
+        C.setdefault("core::num::<impl %s>::%s" % (_p, _nm), {})["fork"] = wordop_fork(_nm)
